@@ -89,6 +89,18 @@ Definition hstep (h : hstate) (ew : ev * bool) : hstate :=
 
 Definition hrun (h : hstate) (es : list (ev * bool)) : hstate := fold_left hstep es h.
 
+(* a run of locked steps (any serialization of concurrent calls is such a run: each call's
+   install + cache write happens inside one critical section of the store's mutex): the state
+   after each step with what that step wrote *)
+Fixpoint run_trace (s : store) (alive : bool) (es : list ev) : list (store * list (effect V)) :=
+  match es with
+  | [] => []
+  | e :: r => let '(s', fx, _, alive') := step_alive alive s e in (s', fx) :: run_trace s' alive' r
+  end.
+Definition writes_of (tr : list (store * list (effect V))) : list (list doc_entry) :=
+  flat_map (fun '(_, fx) => flat_map (fun f => match f with Flush d => [d] end) fx) tr.
+Definition final_of (s : store) (tr : list (store * list (effect V))) : store := List.last (map fst tr) s.
+
 (* the document with the access stamps projected away *)
 Definition nostamp (d : list doc_entry) : list (name * option (N * V)) :=
   map (fun '(n, e) => (n, option_map (fun '(v, b, _) => (v, b)) e)) d.
